@@ -19,7 +19,17 @@ import (
 // one seed so that a disagreement replays exactly.
 type Rng struct{ s uint64 }
 
-func NewRng(seed uint64) *Rng { return &Rng{s: seed*0x9E3779B97F4A7C15 + 0x1234567} }
+// NewRng derives the generator state from the seed through the splitmix64
+// finaliser, so that the streams of different seeds are unrelated (with the
+// plain `seed*golden + c` start the stream of seed s+1 was the stream of seed s
+// shifted by one draw, and VERIF_SEED = 1, 2, 3 explored nearly the same cases).
+func NewRng(seed uint64) *Rng {
+	z := seed + 0x9E3779B97F4A7C15
+	z = (z ^ (z >> 30)) * 0xBF58476D1CE4E5B9
+	z = (z ^ (z >> 27)) * 0x94D049BB133111EB
+	z ^= z >> 31
+	return &Rng{s: z ^ 0x1234567}
+}
 
 func (r *Rng) U64() uint64 {
 	r.s += 0x9E3779B97F4A7C15
